@@ -412,3 +412,62 @@ func ruleOrderByteReaders(c *Ctx) {
 	})
 	c.R.Floor("T2-order-byte-readers", n, 2)
 }
+
+// ruleScanCoercion (T1c): in the typed scanners a multi geometry is coerced to
+// its single member only when it has exactly one member.  Every x[0] taken from
+// a value of a multi kind in a Scan* function must be dominated by the true
+// edge of len(x) == 1.
+func ruleScanCoercion(c *Ctx) {
+	p := c.P
+	c.R.Rule("T1c: in wkbcommon's Scan* functions every member extraction x[0] from a multi-kind value is dominated by the true edge of len(x) == 1 (one-member multi to single; anything else is a wrong-geometry error)")
+	n := 0
+	for _, fn := range p.FuncsIn(wkbPkg) {
+		if !strings.HasPrefix(fn.Name(), "Scan") {
+			continue
+		}
+		key := ShortKey(FuncKey(fn))
+		ord := 0
+		for _, b := range fn.Blocks {
+			for _, in := range b.Instrs {
+				ia, ok := in.(*ssa.IndexAddr)
+				if !ok {
+					continue
+				}
+				k := p.KindOf(ia.X.Type())
+				if k != "MultiPoint" && k != "MultiLineString" && k != "MultiPolygon" && k != "Polygon" {
+					continue
+				}
+				if v, ok := constUint(ia.Index); !ok || v != 0 {
+					continue
+				}
+				n++
+				cons := fmt.Sprintf("%s#first-member(%s)#%d", key, k, ord)
+				ord++
+				guarded := false
+				for _, gb := range fn.Blocks {
+					ifi, ok := gb.Instrs[len(gb.Instrs)-1].(*ssa.If)
+					if !ok {
+						continue
+					}
+					bo, ok := ifi.Cond.(*ssa.BinOp)
+					if !ok || bo.Op != token.EQL {
+						continue
+					}
+					lc, ok := bo.X.(*ssa.Call)
+					if !ok || !isBuiltin(lc, "len") || lc.Call.Args[0] != ia.X {
+						continue
+					}
+					if v, ok := constUint(bo.Y); ok && v == 1 && gb.Succs[0].Dominates(b) {
+						guarded = true
+					}
+				}
+				if guarded {
+					c.R.OK("T1c-scan-coercion", cons, p.InstrPos(ia), "taken only when the multi geometry has exactly one member")
+				} else {
+					c.R.Bad("T1c-scan-coercion", cons, p.InstrPos(ia), "the first member of a "+k+" is returned without requiring len == 1: a multi geometry with several members is silently truncated instead of reported as the wrong geometry")
+				}
+			}
+		}
+	}
+	c.R.Floor("T1c-scan-coercion", n, 4)
+}
